@@ -29,6 +29,7 @@
 #include <sstream>
 #include <stdexcept>
 #include <streambuf>
+#include <type_traits>
 #include <string>
 #include <vector>
 
@@ -101,11 +102,19 @@ template <typename V> struct IOX<backend::identity<V>> {
   static typename L::owning_data_t make(Tok & t) { t.expect("I"); return typename L::owning_data_t(typename L::configuration_t{}); }
   static void show(const typename L::owning_data_t &, std::ostream & os) { os << "I"; }
 };
+// how the storage-order layers are put together from the tokens: 0 = owning_data_t(configuration, backend &&) — the constructor
+// read_binary itself uses —, 1 = the parameter-pack constructor (configuration first, the ready-made layer below as the rest of the pack):
+// the `lookups` operation compares a reloaded field with originals built BOTH ways, so that whatever a layer derives from its sizes at
+// construction is compared between constructors as well
+inline int g_sized_route = 0;
 // strided / morton / hilbert: N extents
 template <typename L> struct Sized {
   using B = typename L::backend_t; static constexpr std::size_t N = L::contravariant_input_t::dimensions;
   static typename L::owning_data_t make(Tok & t) {
     t.expect("S"); auto cfg = t.list(N); typename L::configuration_t c; for (std::size_t k = 0; k < N; ++k) c[k] = cfg[k];
+    if constexpr (std::is_constructible_v<typename L::owning_data_t, parameter_pack<typename L::configuration_t, typename B::owning_data_t> &&>) {
+      if (g_sized_route == 1) return typename L::owning_data_t(make_parameter_pack(std::move(c), IOX<B>::make(t)));
+    }
     return typename L::owning_data_t(c, IOX<B>::make(t));
   }
   static void show(const typename L::owning_data_t & o, std::ostream & os) {
@@ -313,21 +322,26 @@ template <typename B> std::string runOp(const std::string & op, std::istringstre
       using CT = std::decay_t<typename F::coordinate_t>;
       using SC = std::decay_t<decltype(std::declval<CT>()[0])>;
       if (N != B::contravariant_input_t::dimensions) return "unsupported-dims";
-      auto f = fieldOf<B>(t);
+      std::string rest; std::getline(is, rest);
+      std::istringstream is0(rest), is1(rest); Tok t0{is0}, t1{is1};
+      g_sized_route = 1; auto f = fieldOf<B>(t1);          // the original, its storage order built by the parameter-pack constructor
+      g_sized_route = 0; auto f0 = fieldOf<B>(t0);         // ... and by the (configuration, backend &&) constructor
       std::string bytes = dumpOf(f);
+      if (dumpOf(f0) != bytes) return "ok 1 1 dumps-of-the-two-constructions-differ";
       std::istringstream iss(bytes);
       F g(iss);
-      typename F::view_t vf(f), vg(g);
+      typename F::view_t vf(f), vg(g), vf0(f0);
       std::vector<u64> c(N, 0); u64 total = 1;
       for (auto & x : sz) { x = x > 1 ? x - 1 : 1; total *= x; }     // stay one short of the last plane (linear reads the +1 neighbour)
       u64 bad = 0;
       for (u64 k = 0; k < total; ++k) {
         CT cc; for (std::size_t d = 0; d < N; ++d) cc[d] = static_cast<SC>(c[d]);
-        auto rf = vf.at(cc); auto rg = vg.at(cc);
+        auto rf = vf.at(cc); auto rg = vg.at(cc); auto r0 = vf0.at(cc);
         for (std::size_t q = 0; q < B::covariant_output_t::dimensions; ++q) {
-          auto a = rf[q]; auto b = rg[q];
+          auto a = rf[q]; auto b = rg[q]; auto a0 = r0[q];
           // bitwise equal, or both NaN (which operand's payload an arithmetic NaN inherits is up to the compiler's operand order)
           if (std::memcmp(&a, &b, sizeof(a)) != 0 && !(a != a && b != b)) { ++bad; break; }
+          if (std::memcmp(&a0, &b, sizeof(a0)) != 0 && !(a0 != a0 && b != b)) { ++bad; break; }
         }
         for (std::size_t d = N; d-- > 0;) { if (++c[d] < sz[d]) break; c[d] = 0; }
       }
